@@ -900,6 +900,8 @@ class SQLParser:
             is_not = scanner.search_and_move_one_type_set_use_upper(static.get_not_operator_set(sql_type))
 
             if scanner.is_finish:
+                if is_not:
+                    raise SqlParseError(f"NOT 之后缺少关键字条件表达式: {scanner}")
                 return before_value  # 如果已经匹配结果，则直接返回
 
             next_ch = scanner.get_as_source_or_null().upper()
@@ -957,6 +959,8 @@ class SQLParser:
                 )
             else:
                 # 没有关键字表达式，直接返回按位或表达式或更低等级表达式
+                if is_not:
+                    raise SqlParseError(f"NOT 之后缺少关键字条件表达式: {scanner}")
                 return before_value
 
         # 如果后续是连续的关键字条件表达式的关键字，则将当前关键字表达式作为下一个关键字表达式的 before_value 继续解析
